@@ -372,19 +372,8 @@ func (s *sharedEntryAttributes) getAggregatedDeletes(deletes []DeleteEntry, aggr
 	// if keys exist and we're on the last level of the keys, validate
 	// if aggregation can happen
 	if len(keys) > 0 && level == len(keys) {
-		doAggregateDelete := true
-		// check the keys for deletion
-		for _, n := range keys {
-			c, exists := s.childs.GetEntry(n)
-			// these keys should aways exist, so for now we do not catch the non existing key case
-			if exists && !c.shouldDelete() {
-				// if not all the keys are marked for deletion, we need to revert to regular deletion
-				doAggregateDelete = false
-				break
-			}
-		}
 		// if aggregate delet is possible do it
-		if doAggregateDelete {
+		if s.deletesWholeListEntry() {
 			// by adding the key path to the deletes
 			deletes = append(deletes, s)
 		} else {
@@ -399,6 +388,28 @@ func (s *sharedEntryAttributes) getAggregatedDeletes(deletes []DeleteEntry, aggr
 		return deletes, nil
 	}
 	return s.getRegularDeletes(deletes, aggregatePaths)
+}
+
+// deletesWholeListEntry reports if s is the last key level of a list entry, which is to be deleted
+// as a whole, because all its key leafs are to be deleted.
+func (s *sharedEntryAttributes) deletesWholeListEntry() bool {
+	if s.schema != nil {
+		return false
+	}
+	ancestor, level := s.GetFirstAncestorWithSchema()
+	keys := ancestor.GetSchemaKeys()
+	if len(keys) == 0 || level != len(keys) {
+		return false
+	}
+	// check the keys for deletion
+	for _, n := range keys {
+		c, exists := s.childs.GetEntry(n)
+		// these keys should aways exist, so for now we do not catch the non existing key case
+		if exists && !c.shouldDelete() {
+			return false
+		}
+	}
+	return true
 }
 
 // canDelete checks if the entry can be Deleted.
